@@ -114,6 +114,16 @@ func Main(m *testing.M, property string) {
 	R.frag.Shard = E.Shard
 	R.known = LoadKnownAll(E.Root, property)
 	debug.SetMaxStack(512 << 20)
+	if d := os.Getenv("VERIF_DONE"); d != "" {
+		_ = json.Unmarshal([]byte(d), &doneBefore)
+	}
+	attempt = uint64(atoi(getenv("VERIF_ATTEMPT", "0"), 0))
+	go func() {
+		for {
+			time.Sleep(time.Second)
+			R.flush()
+		}
+	}()
 	start := time.Now()
 	flag.Parse()
 	code := m.Run()
@@ -122,6 +132,24 @@ func Main(m *testing.M, property string) {
 	R.frag.ExitCode = code
 	R.flush()
 	os.Exit(code)
+}
+
+// progress of earlier attempts of this shard (the process died and was
+// restarted by the driver): cases already started per test
+var doneBefore = map[string]int64{}
+var attempt uint64
+
+// EnumResume returns the index at which an enumerated test resumes after a
+// process death (0 on the first attempt); indexes count cases handed to
+// EnumAt in this shard.
+func EnumResume(name string) int64 { return doneBefore[name] }
+
+// EnumAt records that the name's n-th case (1-based count of cases started in
+// this shard, including earlier attempts) is about to run.
+func EnumAt(name string, n int64) {
+	R.mu.Lock()
+	R.frag.Tests[name] = n - doneBefore[name]
+	R.mu.Unlock()
 }
 
 func getenv(k, d string) string {
@@ -170,7 +198,7 @@ func SeedFor(name string) uint64 {
 	h.Write([]byte(E.Property))
 	h.Write([]byte{0})
 	h.Write([]byte(name))
-	s := splitmix(E.Seed ^ splitmix(h.Sum64()^uint64(E.Shard)*0x100000001b3))
+	s := splitmix(E.Seed ^ splitmix(h.Sum64()^uint64(E.Shard)*0x100000001b3) ^ attempt*0x2545f4914f6cdd1d)
 	s |= 1
 	// rapid parses the seed flag as uint64; keep it below 2^63 so that it
 	// prints and parses the same everywhere
@@ -479,6 +507,14 @@ func Rapid(t *testing.T, quick, thorough int, prop func(rt *rapid.T, c *Case)) {
 
 func RapidN(t *testing.T, checks int, prop func(rt *rapid.T, c *Case)) {
 	name := t.Name()
+	// after a process death the driver restarts the shard: continue with the
+	// remaining budget under a new seed instead of repeating the same cases
+	if done := doneBefore[name]; done > 0 {
+		checks -= int(done)
+		if checks <= 0 {
+			t.Skip("budget used up by earlier attempts")
+		}
+	}
 	lf := &lastFail{}
 	curLast[name] = lf
 	_ = flag.Set("rapid.checks", strconv.Itoa(checks))
@@ -508,6 +544,9 @@ func RapidN(t *testing.T, checks int, prop func(rt *rapid.T, c *Case)) {
 	rapid.Check(t, func(rt *rapid.T) {
 		c := &Case{t: t, rt: rt, Data: map[string]any{}}
 		invocations++
+		R.mu.Lock()
+		R.frag.Tests[name] = invocations
+		R.mu.Unlock()
 		defer func() {
 			if r := recover(); r != nil {
 				if _, ok := r.(abandon); ok {
@@ -531,9 +570,48 @@ func RapidN(t *testing.T, checks int, prop func(rt *rapid.T, c *Case)) {
 		}()
 		prop(rt, c)
 	})
-	R.mu.Lock()
-	R.frag.Tests[name] += invocations
-	R.mu.Unlock()
+	_ = invocations
+}
+
+// FaultFrame returns the fq function in which the original (oldest) panic of
+// a stack trace happened; panics re-raised by recoverfn.Run are skipped.
+func FaultFrame(stack string) string {
+	lines := strings.Split(stack, "\n")
+	last := -1
+	for i, l := range lines {
+		if strings.HasPrefix(l, "panic(") {
+			last = i
+		}
+	}
+	for i := last + 1; i < len(lines); i++ {
+		l := lines[i]
+		if strings.HasPrefix(l, "github.com/wader/fq/") && !strings.HasPrefix(l, "github.com/wader/fq/verif/") && !strings.HasPrefix(l, "github.com/wader/fq/internal/recoverfn") {
+			if j := strings.LastIndex(l, "("); j > 0 {
+				l = l[:j]
+			}
+			return strings.TrimPrefix(l, "github.com/wader/fq/")
+		}
+	}
+	return "unknown-frame"
+}
+
+// Watchdog ends the process with a VERIF-HANG marker when the journalled case
+// has been open for longer than d.  The driver then excludes that case and
+// restarts the shard; a hang is reported as suspected, never as a violation.
+func Watchdog(d time.Duration) {
+	go func() {
+		for {
+			time.Sleep(d / 8)
+			journalMu.Lock()
+			open, since := journalOpen, journalSince
+			journalMu.Unlock()
+			if open != "" && time.Since(since) > d {
+				fmt.Fprintf(os.Stderr, "\nVERIF-HANG after %s: %s\n", d, open)
+				R.flush()
+				os.Exit(3)
+			}
+		}
+	}()
 }
 
 // TopRepoFrame extracts the first stack frame that belongs to fq itself.
@@ -637,6 +715,9 @@ var (
 	skipSet   map[string]bool
 	skipOnce  sync.Once
 	journalMu sync.Mutex
+
+	journalOpen  string
+	journalSince time.Time
 )
 
 // Journal records the descriptor of the case that is about to run, so that
@@ -644,6 +725,7 @@ var (
 func Journal(desc string) {
 	journalMu.Lock()
 	defer journalMu.Unlock()
+	journalOpen, journalSince = desc, time.Now()
 	if journalF == nil {
 		p := os.Getenv("VERIF_JOURNAL")
 		if p == "" {
